@@ -465,6 +465,49 @@ func renderPieces(ps []piece, gap, sep string) string {
 	return b.String()
 }
 
+// TwinCase: two files with byte-identical text are two templates: an error raised in the second one names the
+// second one (file name, token) although the first one was compiled - and failed - just before.
+type TwinCase struct {
+	Text eng.Q `json:"text"`
+}
+
+func (c *TwinCase) ID() string { return fmt.Sprintf("two files with the text %q", string(c.Text)) }
+
+func (c *TwinCase) Exec(t *eng.T) {
+	t.Nontrivial()
+	files := map[string]string{"/pages/first.tpl": string(c.Text), "/pages/second.tpl": string(c.Text), "/pages/inc": "I"}
+	set, _ := px.NewSet(files)
+	cx := pongo2.Context{"zero": 0, "fail": func() (string, error) { return "", fmt.Errorf("boom") }}
+	var errs []*pongo2.Error
+	for _, name := range []string{"/pages/first.tpl", "/pages/second.tpl", "/pages/first.tpl"} {
+		tpl, out := px.CompileFile(set, name)
+		if tpl != nil {
+			out = px.Exec(tpl, cx)
+		}
+		if out.Panic != "" {
+			t.Fail("twin:panic", "%s: %s panics: %s", c.ID(), name, out.PanicMsg)
+			return
+		}
+		if out.PErr == nil {
+			t.Outcome("no-error")
+			return // the text does not fail: nothing to compare
+		}
+		errs = append(errs, out.PErr)
+		if out.PErr.Filename != name && out.PErr.Line > 0 {
+			t.Fail("twin:foreign-filename", "%s: the error raised for %s names %q (line %d col %d: %v)", c.ID(), name, out.PErr.Filename, out.PErr.Line, out.PErr.Column, out.PErr.OrigError)
+			return
+		}
+		if out.PErr.Token != nil && out.PErr.Token.Filename != name {
+			t.Fail("twin:foreign-token", "%s: the error raised for %s carries a token of %q", c.ID(), name, out.PErr.Token.Filename)
+			return
+		}
+	}
+	t.Outcome(fmt.Sprint(errs[0].Line, errs[0].Column))
+	if errs[0].Line != errs[1].Line || errs[0].Column != errs[1].Column {
+		t.Fail("twin:position-differs", "%s: the same text fails at %d:%d in the first file and at %d:%d in the second", c.ID(), errs[0].Line, errs[0].Column, errs[1].Line, errs[1].Column)
+	}
+}
+
 func run(r *eng.Runner) {
 	// (a)
 	alpha := []string{"{", "}", "%", "#", "-", "\"", "'", "\\", "|", ":", ".", "(", "=", " ", "\n", "a", "1", "\xc3\xa9"}
@@ -618,6 +661,11 @@ func run(r *eng.Runner) {
 		}
 	}
 	// load failures
+	r.Group("identical-texts", "c16.twin", "two files of one set with byte-identical text that fails (compile errors of the lexer and the parser, execution errors in a variable, a filter, a call, a tag argument, inside a macro and a block): compiled and executed one after the other, each error names the file it was raised for")
+	for _, txt := range []string{"x\n{{ 1 / zero }}", "{{ \"abc", "a {% if %}", "\n\n  {{ fail() }}", "{{ zero|pluralize:\"a,b,c\" }}", "{% macro m() %}{{ fail() }}{% endmacro %}\n{{ m() }}", "{% block b %}\n {{ 5 % zero }}{% endblock %}",
+		"{% for i in \"ab\" %}{% widthratio 1 zero fail() %}{% endfor %}", "{% include \"inc\" %}{% nosuchtag %}", "{{ 1|nosuchfilter }}", "{% with a=fail() %}{% endwith %}", "{% filter add:fail() %}x{% endfilter %}"} {
+		r.Do(&TwinCase{Text: eng.Q(txt)})
+	}
 	r.Group("load-failure", "c16.err", "references to a file no loader has (include, extends, import, ssi): the error must name a template that is involved")
 	for _, ref := range []string{`{% include "nofile" %}`, `x{% include b_nofile %}`, "\n{% extends \"nofile\" %}", `{% import "nofile" mac %}`, `{% ssi "nofile" parsed %}`, `{% ssi "nofile" %}`} {
 		r.Do(&ErrCase{Files: map[string]string{"/main": ref}, Kind: "load"})
@@ -635,6 +683,7 @@ func sortStrings(s []string) {
 func init() {
 	eng.RegisterCase("c16.lex", func() eng.Case { return &LexCase{} })
 	eng.RegisterCase("c16.err", func() eng.Case { return &ErrCase{} })
+	eng.RegisterCase("c16.twin", func() eng.Case { return &TwinCase{} })
 	eng.Register(&eng.Check{
 		ID:    "C16",
 		Title: "Diagnostics point at the right place",
